@@ -4,7 +4,7 @@
 EXTENDS EncoderConfig
 
 Names == <<"entry", "preset", "extreme", "lclppb", "mf", "mode", "nice", "depth", "dict", "pdict", "check", "chain",
-           "bsize", "threads", "flush", "oslice", "l1kind", "limit", "mtpreset", "update">>
+           "bsize", "threads", "flush", "oslice", "l1kind", "limit", "mtpreset", "update", "history">>
 
 AllEntries == <<"easy", "stream", "stream_mt", "alone", "raw1", "raw2", "block", "microlzma", "easy_buffer",
                 "stream_buffer", "block_buffer", "raw_buffer", "raw1_buffer">>
@@ -18,7 +18,7 @@ QuickVals == <<
     <<"fast", "normal">>,                                          \* mode
     <<"2", "32", "273">>,                                          \* nice_len
     <<"0", "1", "200">>,                                           \* depth
-    <<"4096", "65536", "1048577">>,                                \* dict_size
+    <<"4096", "65536", "1048577", "8192">>,                        \* dict_size
     <<"no", "small", "huge">>,                                     \* preset dictionary (huge: longer than the whole window)
     <<1, 0, 4, 10>>,                                               \* check
     <<"lzma2", "delta", "x86", "arm64delta">>,                     \* filter chain shape
@@ -29,7 +29,8 @@ QuickVals == <<
     <<"lzma1", "ext_noeopm", "ext_eopm">>,                         \* LZMA1 kind
     <<"big", "40", "300", "7">>,                                   \* MicroLZMA output limit
     <<FALSE, TRUE>>,                                               \* MT: preset instead of filters
-    <<"none", "props">> >>                                         \* lzma_filters_update with new lc/lp/pb
+    <<"none", "props">>,                                           \* lzma_filters_update with new lc/lp/pb
+    <<"fresh", "mid", "header", "flushed">> >>                     \* abandoned session on the same handle before
 
 ThoroughVals == <<
     AllEntries,
@@ -40,7 +41,7 @@ ThoroughVals == <<
     <<"fast", "normal", "dflt">>,
     <<"2", "32", "273", "3", "4", "5", "128", "dflt">>,
     <<"0", "1", "200", "2", "1000", "dflt">>,
-    <<"4096", "65536", "1048577", "4097", "98304", "2097152", "dflt">>,
+    <<"4096", "65536", "1048577", "8192", "4097", "16384", "32768", "98304", "2097152", "dflt">>,
     <<"no", "small", "huge">>,
     <<1, 0, 4, 10>>,
     <<"lzma2", "delta", "x86", "arm64delta">>,
@@ -51,5 +52,6 @@ ThoroughVals == <<
     <<"lzma1", "ext_noeopm", "ext_eopm">>,
     <<"big", "40", "300", "7", "6", "4096", "65536">>,
     <<FALSE, TRUE>>,
-    <<"none", "props">> >>
+    <<"none", "props">>,
+    <<"fresh", "mid", "header", "flushed">> >>
 =============================================================================
